@@ -14,6 +14,7 @@ import Mathlib.Algebra.Order.Field.Basic
 import TjdModel.Agg.Spec2
 import TjdLemmas.FWLemmas
 import TjdLemmas.MinNormTotal
+import TjdLemmas.NashScale
 namespace Tjd.Props.C04
 open Tjd Tjd.Agg
 
@@ -62,5 +63,16 @@ theorem minNorm_total [Inhabited α] (J : Mat α) (m n : Nat) (hJ : MatWF J m n)
 theorem minnorm_point_exists (J : Mat α) (m n : Nat) (hJ : MatWF J m n) (hm : 0 < m) :
     ∃ a, InSimplex a m ∧ ∀ b, InSimplex b m → qf (gram J) a ≤ qf (gram J) b := by
   exact minnorm_exists_mnt J m n hJ hm
+
+/-- the shape of the per-objective allowance used for solver-based aggregators (CAGrad): a perturbation `dw` of the
+    weights moves `(J A(J))_i = ⟨j_i, Jᵀ w⟩` by at most `|j_i| · Σ_k |dw_k| |j_k|` (squared form, no square roots; with
+    `|j_k| ≤ s` this is `|j_i| s |dw|₁`) — an objective with a short row is owed a proportionally small allowance -/
+theorem weights_perturbation_row_bound (J : Mat α) (m n : Nat) (hJ : MatWF J m n) (dw : Vec α) (hd : dw.length = m)
+    (r : Vec α) (hr : r.length = m) (hrn : ∀ k, k < m → 0 ≤ r.getD k 0 ∧ dot (J.getD k []) (J.getD k []) = r.getD k 0 * r.getD k 0)
+    (i : Nat) (hi : i < m) :
+    dot (J.getD i []) (combine n J dw) * dot (J.getD i []) (combine n J dw) ≤
+      dot (J.getD i []) (J.getD i []) *
+        (((List.range m).map fun k => |dw.getD k 0| * r.getD k 0).sum * ((List.range m).map fun k => |dw.getD k 0| * r.getD k 0).sum) := by
+  exact perturbation_row_bound_ns J m n hJ dw hd r hr hrn i hi
 
 end Tjd.Props.C04
